@@ -97,6 +97,8 @@ class P:
         for k in (lim - 3, lim - 2, lim - 1, lim):
             deep_programs += ["!" * k + "a", "- " * k + "a", "[" * k + "a" + "]" * k, "f(" * k + "a" + ")" * k, "{1:" * k + "a" + "}" * k,
                               "c ? b : " * k + "a", "b = " * k + "a", "[-" * (k // 2) + "a" + "]" * (k // 2), "1 + f(" * (k // 2) + "a" + ")" * (k // 2)]
+        # ... and the same statements inside a CHAIN (the chain node adds a level on top of the deepest statement the parser accepts)
+        deep_programs += [pre + q + post for q in list(deep_programs) for pre, post in (("x = 1; ", ""), ("", "; a"))]
         for cfg in ([], [("R", "a")], [("U", "!"), ("U", "-")], [("L", "")], [("F", "f")], [("M", "")], [("T", "")], [("B", "=")],
                     [("R", "a"), ("U", "!"), ("U", "-"), ("L", ""), ("F", "f"), ("M", ""), ("T", ""), ("B", "="), ("B", "+")]):
             sds = ["SD:%s:%s" % (k, hx(n)) for k, n in cfg]
